@@ -28,7 +28,7 @@ use rustc_middle::mir::{
     StatementKind, TerminatorKind,
 };
 use rustc_middle::util::Providers;
-use rustc_middle::ty::print::with_no_trimmed_paths;
+use rustc_middle::ty::print::{with_no_trimmed_paths, with_no_visible_paths};
 use rustc_middle::ty::{self, Instance, Ty, TyCtxt, TypingEnv};
 use rustc_span::Span;
 
@@ -159,7 +159,7 @@ fn crate_name(tcx: TyCtxt<'_>, did: DefId) -> String {
 
 /// crate-qualified, generics-free path of an item.
 fn path_of(tcx: TyCtxt<'_>, did: DefId) -> String {
-    let p = with_no_trimmed_paths!(tcx.def_path_str(did));
+    let p = with_no_visible_paths!(with_no_trimmed_paths!(tcx.def_path_str(did)));
     if did.is_local() {
         format!("{}::{}", crate_name(tcx, did), p)
     } else {
@@ -168,7 +168,7 @@ fn path_of(tcx: TyCtxt<'_>, did: DefId) -> String {
 }
 
 fn ty_str<'tcx>(ty: Ty<'tcx>) -> String {
-    with_no_trimmed_paths!(ty.to_string())
+    with_no_visible_paths!(with_no_trimmed_paths!(ty.to_string()))
 }
 
 fn span_str(tcx: TyCtxt<'_>, sp: Span) -> String {
